@@ -49,7 +49,7 @@ func isMapDeleteOn(in ssa.Instruction, field string) bool {
 	if !ok || b.Name() != "delete" {
 		return false
 	}
-	return mentions(c.Call.Args[0], func(v ssa.Value) bool { return isFieldRef(v, field) }, 4)
+	return isPureLoadOf(c.Call.Args[0], field)
 }
 
 func checkC17(c *Ctx, r *Report) {
